@@ -11,6 +11,44 @@ sys.path.insert(0, VERIF)
 TEXT = {
     "C01": ("§5 C01", "crash monitor (caught panic / process death / CPU-time watchdog / canary) over grammar-based, truncation-exhaustive and mutated frame histories under all 72 configurations, debug+release",
             "Held on the executions produced (10^6-10^7 frames per run, every truncation length of every seed, all 72 configuration classes, both arithmetic profiles); says nothing about frames the generators cannot produce."),
+    "C02": ("§5 C02", "independent scope model (authorised-MAC set, deny set, EtherType/protocol sets, reply identity) over bit-flip-exhaustive addressing sweeps with in-scope control twins",
+            "Held on ~10^6-10^7 frames per run: every single-bit flip of every authorised MAC, all 65536 EtherTypes, all 256 protocol numbers per IP version, neighbours of self-IP/deny members; each silence is attributed to the filter by an answered control twin."),
+    "C03": ("§5 C03", "independent mirror oracle (addresses, ports, STUN port exception) on every reply of a randomised reply-eliciting mix and its mutations",
+            "Held on ~10^6 replies per run with random MACs/addresses/ports in both IP versions; the oracle also runs as a secondary monitor inside every other check."),
+    "C04": ("§5 C04", "independent re-parse and re-checksum of every emitted frame + every echo length + deterministic checksum steering to the 0x0000/0xFFFF boundary",
+            "Held on ~10^6 replies per run incl. all echo payload lengths 0..1472 and steered boundary checksums for STUN/DNS/RPC/echo/TCP; replies larger than the largest elicited one are not explored."),
+    "C05": ("§5 C05", "exact expected-reply model for ARP / ND / echo over the exhaustive ICMP (type, code) grids and every echo length",
+            "Held on the complete 2 x 65536 (type, code) grids, all 2 x 1473 echo lengths and ~10^6 ARP/NS shapes per run."),
+    "C06": ("§5 C06", "closed-form SYN policy oracle over the exhaustive 512-flag grid + metamorphic cookie determinism/sensitivity pairs",
+            "Held on the full flag x payload x seq-class x IP-version grid on random tuples (before and after validation/floods) and ~5*10^4 single-input perturbation pairs per run; no hash function is imposed."),
+    "C07": ("§5 C07", "executable TCP connection model (validated-flow set, boundary-learned cookies) checked against random interleaved multi-flow scripts",
+            "Held on ~10^5 random scripts per run incl. wrap-around arithmetic and near-miss acknowledgement numbers; one genuine defect (cookie collisions share a control block) is a recorded known finding."),
+    "C08": ("§5 C08", "metamorphic non-interference: F alone / H alone / random interleaving must give canonically equal replies",
+            "Held on ~3*10^4 (F, H, interleaving) triples per run with one-field-different tuples; the cookie-collision known finding is reproduced from its witness."),
+    "C09": ("§5 C09", "table-size probe after every frame against the validated-flow model + counting-allocator live-heap measurement across unvalidated floods",
+            "Held on 1.6*10^6 flood frames per run (heap delta measured exactly) and ~7*10^3 model scripts; cookie-collision known finding reproduced."),
+    "C10": ("§5 C10", "exhaustive product exploration of the compiled matcher vs. the reference signature automaton (all states x 256 bytes + END), frame-level confirmation by constraint-solved valid requests, segmentation independence via table dump",
+            "The matcher-level sub-space is enumerated completely (328 product states, 84040 real matcher steps); observable consequences are confirmed at frame level; the 101 divergence edges of the unchanged tree are a recorded known finding (two root causes)."),
+    "C11": ("§5 C11", "all 1-cut and 2-cut segmentations (+ sampled k-cuts, byte-wise) of grammar-generated HTTP / RPC streams against the unsegmented reference and the grammar's trigger byte",
+            "Held on ~10^5-10^6 sessions per run: every one- and two-cut composition of each sampled stream; streams are sampled, not enumerated."),
+    "C12": ("§5 C12", "reply-typed message corpus (hand-made + the responder's own replies bounced back) with reflection-chain following; non-triviality checked by flipping the reply marker",
+            "Held on ~7*10^5 chains per run over all enumerated reply kinds, both IP versions."),
+    "C13": ("§5 C13", "HTTP request grammar + single-fault corruptions, response decoded by an independent parser (status, challenge, Content-Length vs. body)",
+            "Held on ~10^5 positive and ~7*10^5 single-fault negative requests per run over UDP and TCP."),
+    "C14": ("§5 C14", "independent DNS codec: field-by-field comparison of responses to generated IN/A queries; non-IN/A and every-truncation negatives",
+            "Held on ~2*10^5 queries, 10^5 non-IN/A and 7*10^5 truncation negatives per run."),
+    "C15": ("§5 C15", "independent STUN codec over all source ports and all recognised request forms; other classes/methods on established STUN flows; malformed TLVs",
+            "Held on every source port 0..65535 (thorough; quarter in quick) and ~3*10^5 further requests per run."),
+    "C16": ("§5 C16", "independent XDR reader over all 256 programs, all 256 procedures, version classes, auth lengths, ports, UDP/TCP, IPv4/IPv6",
+            "Held on ~9*10^5 calls per run; shadowed xids are excluded by the matcher-agreement precondition (C10)."),
+    "C17": ("§5 C17", "independent NBSS/SMB1/SMB2 codecs over random correlation ids, dialect lists (permutations, duplicates, unknown), blob lengths, all commands",
+            "Held on ~4*10^5 positive and ~2*10^5 negative requests per run."),
+    "C18": ("§5 C18", "SSH identification-string grammar with arbitrary bytes + malformed variants; Gh0st frame decoded with CPython zlib",
+            "Held on ~3*10^5 banners and Gh0st payloads per run."),
+    "C19": ("§5 C19", "metamorphic placement independence: same payload to 24 (ports, IP version) placements per transport, canonical replies compared",
+            "Held on ~4*10^4 payloads x 48 placements per run incl. mutated payloads."),
+    "C20": ("§5 C20", "independent parsers of both log formats + per-frame event grammar, fate, field and reach-model monitor on stdout of the real loggers",
+            "Held on ~2*10^6 frames per run under both loggers; 17 distinct event words observed, all balanced."),
 }
 
 
